@@ -311,14 +311,17 @@ Fixpoint take_first {A} (f : A -> bool) (l : list A) : option (list A) :=
 
 (* [k_counted]: the script's function is one whose entries the servant logs per request (act); for the others
    (void function, unknown function) the count is not observable per request *)
-Record c10_req := { k_pkg : hexs; k_queued : N; k_run : hrun; k_counted : bool; k_invoked : N }.
+Record c10_req := { k_pkg : hexs; k_queued : N; k_run : hrun; k_alts : list (N * N); k_counted : bool; k_invoked : N }.
 Record c10_case := { k_cfg : config; k_reqs : list c10_req; k_obs : list hexs }.
 
 Definition is_disp_err (h : hrun) : bool := match h_res h with HFail DispErr => true | _ => false end.
 Definition is_done (h : hrun) : bool := match h_res h with HDone _ _ _ => true | _ => false end.
 
 (* every request: parses, the model's replies are all found among the observed ones (each observed reply used
-   once), the invocation count agrees; nothing observed is left over *)
+   once), the invocation count agrees; nothing observed is left over.
+   [k_alts]: for a scripted race (handler running for about the handle timeout; own timeout about the queueing
+   time) the (queueing time, running time) pairs on either side of the boundary: the observation must agree with
+   the model for one of them - the outcomes the schedules theorems allow. Empty otherwise: only the scripted pair. *)
 Fixpoint c10_consume (cfg : config) (reqs : list c10_req) (obs : list (option (bool * reply))) : bool :=
   match reqs with
   | [] => match obs with [] => true | _ => false end
@@ -326,19 +329,21 @@ Fixpoint c10_consume (cfg : config) (reqs : list c10_req) (obs : list (option (b
       match parse_request (unhex (k_pkg k)) with
       | None => false
       | Some r =>
-          let '(rs, n) := server_step (fun _ => k_run k) cfg r (k_queued k) in
-          ((if k_counted k then N.of_nat n else 0) =? k_invoked k) &&
-          (fix go (rs : list (origin * reply)) (obs : list (option (bool * reply))) : bool :=
-             match rs with
-             | [] => c10_consume cfg rest obs
-             | (o, m) :: rs' =>
-                 match take_first (fun x => match x with
-                                            | Some ob => reply_matches o (is_disp_err (k_run k)) (is_done (k_run k)) m ob
-                                            | None => false end) obs with
-                 | Some obs' => go rs' obs'
-                 | None => false
-                 end
-             end) rs obs
+          existsb (fun qd : N * N =>
+            let '(rs, n) := server_step (fun _ => {| h_res := h_res (k_run k); h_dur := snd qd |}) cfg r (fst qd) in
+            ((if k_counted k then N.of_nat n else 0) =? k_invoked k) &&
+            (fix go (rs : list (origin * reply)) (obs : list (option (bool * reply))) : bool :=
+               match rs with
+               | [] => c10_consume cfg rest obs
+               | (o, m) :: rs' =>
+                   match take_first (fun x => match x with
+                                              | Some ob => reply_matches o (is_disp_err (k_run k)) (is_done (k_run k)) m ob
+                                              | None => false end) obs with
+                   | Some obs' => go rs' obs'
+                   | None => false
+                   end
+               end) rs obs)
+            (match k_alts k with [] => [(k_queued k, h_dur (k_run k))] | alts => alts end)
       end
   end.
 
